@@ -338,7 +338,14 @@ fn call(surface: &str, w: &mut SimWriter, tgt: &mut Target<'_>, fg: Option<ansty
     }
 }
 
+/// `execute_inner` under a guard: a panic of the code under test *outside* a client call (while the
+/// harness computes its one-shot reference for the input, say) is a violation like any other panic,
+/// not a crash of the harness.
 pub fn execute(t: &Trace, stats: &mut Stats, record: bool) -> Outcome {
+    guarded_execute(execute_inner, t, stats, record)
+}
+
+fn execute_inner(t: &Trace, stats: &mut Stats, record: bool) -> Outcome {
     let mut w = SimWriter::new(t.faults.clone(), record);
     w.st().gather = t.param("gathering_writer") == Some(1);
     let h = w.clone();
